@@ -438,7 +438,8 @@ class C07(base.Engine):
                     stats['ops'] += 1
                     res = ev.get('res')
                     if ev.get('inv_bad'):
-                        problems.append(('inv:%s' % ev['inv_bad'][0][0], {'op': ev['i'], 'bad': ev['inv_bad']}))
+                        # host-state / sentinel anomalies are C12's business: counted, not judged here
+                        stats['c12_invariant_anomalies'] += 1
                     if op['op'] == 'refactor':
                         if isinstance(res, dict):
                             desc = res
